@@ -16,10 +16,10 @@ def fp_is_int(c, j):
 class Join(Harness):
     prop = "C05"
     opname = "df_join"
-    def __init__(self, kind, keykinds, na, nb, renamed=False, rightkinds=None):
-        self.kind = kind; self.keykinds = keykinds; self.na = na; self.nb = nb; self.renamed = renamed
+    def __init__(self, kind, keykinds, na, nb, renamed=False, rightkinds=None, sameleft=False):
+        self.kind = kind; self.keykinds = keykinds; self.na = na; self.nb = nb; self.renamed = renamed or sameleft; self.sameleft = sameleft
         self.rightkinds = rightkinds or keykinds
-        self.name = f"C05.{kind}.{'+'.join(keykinds)}{'.vs.' + '+'.join(rightkinds) if rightkinds else ''}{'.renamed' if renamed else ''}.{na}x{nb}"
+        self.name = f"C05.{kind}.{'+'.join(keykinds)}{'.vs.' + '+'.join(rightkinds) if rightkinds else ''}{'.renamed' if renamed else ''}{'.sameleft' if sameleft else ''}.{na}x{nb}"
         self.bounds = {"left rows": f"0..{na}", "right rows": f"0..{nb}", "key dtypes": [KIND_DTYPE[k] for k in keykinds],
                        "right key dtypes": [KIND_DTYPE[k] for k in self.rightkinds],
                        "keys named differently on the two sides": renamed,
@@ -31,8 +31,8 @@ class Join(Harness):
         na = choice("na", range(self.na + 1)); nb = choice("nb", range(self.nb + 1))
         A = {}; B = {}; by = []
         for j, k in enumerate(self.keykinds):
-            an = "k%d" % j; bn = ("r%d" % j) if self.renamed else an
-            A[an] = mk_col(k, na, "a" + an)
+            an = "k%d" % (0 if self.sameleft else j); bn = ("r%d" % j) if self.renamed else an       # sameleft: one left column in every key pair
+            if an not in A: A[an] = mk_col(k, na, "a" + an)
             B[bn] = mk_col(self.rightkinds[j], nb, "b" + bn)
             by.append([an, bn] if self.renamed else an)
         A["pa"] = mk_col("f", na, "pa"); A["ra"] = rid_col(na)
@@ -164,6 +164,7 @@ def harnesses(tier):
         hs.append(Join("left_join", ["i"], 2, 2, renamed=True))
         hs.append(Join("full_join", ["i"], 2, 2, renamed=True))
         hs.append(Join("inner_join", ["i", "f"], 2, 2))
+        hs.append(Join("left_join", ["i", "i"], 2, 2, sameleft=True)); hs.append(Join("semi_join", ["i", "i"], 2, 2, sameleft=True))
         for kind in ("left_join", "anti_join", "full_join"):
             hs.append(Join(kind, ["td"], 2, 2))
         hs.append(Join("semi_join", ["us"], 2, 2))
@@ -176,6 +177,8 @@ def harnesses(tier):
                 hs.append(Join(kind, [k], 3, 3))
             hs.append(Join(kind, ["i"], 3, 3, renamed=True))
             hs.append(Join(kind, ["i", "f"], 2, 3))
+            if kind != "full_join":       # an unmatched right row would have two key values for the one left column: no defined answer
+                hs.append(Join(kind, ["i", "i"], 2, 2, sameleft=True))
             hs.append(Join(kind, ["T", "i"], 2, 2, renamed=True))
             hs.append(Join(kind, ["U"], 2, 2, rightkinds=["T"])); hs.append(Join(kind, ["T"], 2, 2, rightkinds=["U"]))
     return hs
